@@ -363,3 +363,18 @@ def docstring_stripped(body: list) -> list:
             and isinstance(body[0].value.value, str):
         return body[1:]
     return body
+
+
+def eval_bool(test: ast.AST, leaf) -> Optional[bool]:
+    """three-valued evaluation of a branch test: `leaf(expr)` gives True / False / None for an atom; not / and / or are
+    evaluated with Kleene logic.  Rules use it to find the arm a condition selects under an assumption, instead of relying on
+    the polarity or the order in which the author happened to write the test (De Morgan, swapped arms, early returns)."""
+    if isinstance(test, ast.UnaryOp) and isinstance(test.op, ast.Not):
+        v = eval_bool(test.operand, leaf)
+        return None if v is None else not v
+    if isinstance(test, ast.BoolOp):
+        vals = [eval_bool(v, leaf) for v in test.values]
+        if isinstance(test.op, ast.And):
+            return False if False in vals else (None if None in vals else True)
+        return True if True in vals else (None if None in vals else False)
+    return leaf(test)
